@@ -135,6 +135,12 @@ def run(ck, F, prefix='C11'):
              loc=f['loc'], fn=f['id'])
     rets_all = [(st, v) for st, k, v in outs if k == 'return']
     ISA = ('isa', 'ipr::Qualified', ('param', 1))
+    # induction hypothesis: the operand satisfies the invariant (the main variant of a Qualified operand is not Qualified);
+    # paths on which the operand is nested deeper are the same code applied to the next layer and are not judged here
+    def deeper(st):
+        return any(val and isinstance(c, tuple) and len(c) == 3 and c[0] == 'isa' and c[1] == 'ipr::Qualified' and c[2] != ('param', 1)
+                   for c, val in st.conds)
+    rets_all = [(st, v) for st, v in rets_all if not deeper(st)]
     # a test of one implementation class (dynamic_cast<const impl::Qualified*>) recognises fewer operands than the interface
     # category does: a Qualified node of another implementation of ipr::Qualified is then stored as a main variant
     narrow = sorted({c[1] for st, v in rets_all for c, _val in st.conds
@@ -243,7 +249,9 @@ def run(ck, F, prefix='C11'):
         what = []
         if main != ('param', 1):
             what.append(f'its main variant is {contracts.render(main, st2, {node1[1]: "Qualified(q1,T)"})} instead of T')
-        absorbed = quals == ('param', 0) and any(val and says_subset(c, lambda t: t == Q0, lambda t: t == ('param', 0)) for c, val in st2.conds)
+        absorbed = quals == ('param', 0) and (any(val and says_subset(c, lambda t: t == Q0, lambda t: t == ('param', 0)) for c, val in st2.conds)
+                                              or S.truth(('op', '==', ('param', 0), ('op', '|', Q0, ('param', 0))), st2) is True
+                                              or S.truth(('op', '==', ('param', 0), ('op', '|', ('param', 0), Q0)), st2) is True)
         if not found_cond and not union_of(quals, Q0, ('param', 0)) and not absorbed:
             what.append(f'its qualifiers are {contracts.render(quals, st2, {})} instead of q1|q2')
         ck.check(R2, f'Qualified operand/path{i}', not what,
